@@ -23,6 +23,7 @@ func init() {
 		conditionHistoryCases(c)
 		blankCommandCases(c)
 		timedOrderCases(c)
+		missingProgramCases(c)
 	}
 	props["C07"] = func(c *Collector, tier string, seed int64) {
 		runRunnerProp(c, "C07", tier, seed)
@@ -666,6 +667,54 @@ func blankCommandCases(col *Collector) {
 				}
 				col.Add(cs)
 			}
+		}
+	}
+}
+
+// a command whose program does not exist fails like any command (status 127): with allow_failure the task goes on, as
+// a condition it means "not met" (skipped), without allow_failure it ends the task - `after` as declared by C06
+func missingProgramCases(col *Collector) {
+	for _, prog := range []string{"no-such-program-verif", "/no/such/dir/prog", "./no-such-script.sh"} {
+		for _, where := range []string{"command-allow", "command", "condition", "before"} {
+			trace := newTracePath()
+			t := task.NewTask()
+			t.Name = "missing"
+			mark := func(s string) string { return fmt.Sprintf("echo %s >> %s", s, trace) }
+			t.Commands = []string{mark("c0"), mark("c1")}
+			t.After = []string{mark("after")}
+			var want []string
+			wantErr, wantSkipped := false, false
+			switch where {
+			case "command-allow":
+				t.AllowFailure = true
+				t.Commands = []string{mark("c0"), prog + " arg", mark("c2")}
+				want = []string{"c0", "c2", "after"}
+			case "command":
+				t.Commands = []string{mark("c0"), prog + " arg", mark("c2")}
+				want, wantErr = []string{"c0"}, true
+			case "condition":
+				t.Condition = prog
+				wantSkipped = true
+			case "before":
+				t.Before = []string{prog}
+				wantErr = true
+			}
+			cs := Case{Replay: fmt.Sprintf("a program that does not exist (%s) as %s", prog, where), Tags: []string{"missing-program", where}, NonTrivial: true}
+			r, err := runner.NewTaskRunner()
+			if err != nil {
+				cs.Fail, cs.Sig = err.Error(), "runner-panic"
+				col.Add(cs)
+				continue
+			}
+			r.Stdout, r.Stderr = devNull{}, devNull{}
+			rerr := r.Run(t)
+			got := readTrace(trace)
+			os.Remove(trace)
+			cs.Impl = fmt.Sprintf("%s|err=%v|skipped=%v", strings.Join(got, ","), rerr != nil, t.Skipped)
+			if strings.Join(got, ",") != strings.Join(want, ",") || (rerr != nil) != wantErr || t.Skipped != wantSkipped {
+				cs.Fail, cs.Sig = fmt.Sprintf("commands that ran: %v (error %v, skipped %v), the task definition prescribes %v (error %v, skipped %v)", got, rerr, t.Skipped, want, wantErr, wantSkipped), "c06-trace"
+			}
+			col.Add(cs)
 		}
 	}
 }
